@@ -128,7 +128,7 @@ func (a *Act) execBlock(b *ssa.BasicBlock, ctx *blockCtx) {
 			m := x.Type().Underlying().(*types.Map)
 			hv, k, vs := g.w.mapHeap(m)
 			r := a.freshRef(ctx, "map")
-			ctx.st[hv] = "(store " + g.stateGet(ctx.st, hv) + " " + r + " (mk_map ((as const (Array " + k + " Bool)) false) ((as const (Array " + k + " " + vs + ")) " + g.w.zeroSort(vs) + ")))"
+			ctx.st[hv] = "(store " + g.stateGet(ctx.st, hv) + " " + r + " (mk_map ((as const (Array " + k + " Bool)) false) " + g.w.constArr(k, vs) + "))"
 			a.set(x, Val{T: r, S: "Ref", G: x.Type()})
 		case *ssa.MapUpdate:
 			mv := a.val(x.Map)
@@ -139,14 +139,32 @@ func (a *Act) execBlock(b *ssa.BasicBlock, ctx *blockCtx) {
 			vv = a.coerce(vv, vs)
 			g.oblige("nil", a.key+"/nil/mapstore", ctx.reach, not("(= "+mv.T+" ref_nil)"), "assignment to entry in nil map", g.pos(x.Pos()), a.safetyProps())
 			cur := "(select " + g.stateGet(ctx.st, hv) + " " + mv.T + ")"
-			ctx.st[hv] = "(store " + g.stateGet(ctx.st, hv) + " " + mv.T + " (mk_map (store (map_dom " + cur + ") " + kv.T + " true) (store (map_val " + cur + ") " + kv.T + " " + vv.T + ")))"
+			oldH := g.stateGet(ctx.st, hv)
+			oldMV := g.mapvalTerm(ctx.st, mv, m)
+			newH := g.fresh(hv, g.w.heapVars[hv])
+			g.fact("(= " + newH + " (store " + oldH + " " + mv.T + " (mk_map (store (map_dom " + cur + ") " + kv.T + " true) (store (map_val " + cur + ") " + kv.T + " " + vv.T + "))))")
+			ctx.st[hv] = newH
+			// consequences of the update stated over the map-value functions (cheap triggers for frames)
+			newMV := g.mapvalTerm(ctx.st, mv, m)
+			ks := g.w.sortOf(m.Key())
+			mg := g.mgetFn(ks, vs)
+			q := g.freshName("mq")
+			r := g.freshName("mr")
+			mvf := strings.SplitN(strings.TrimPrefix(newMV, "("), " ", 2)[0]
+			g.fact(implies(and(ctx.reach, not("(= "+mv.T+" ref_nil)")), and(
+				"(= ("+mg+" "+newMV+" "+kv.T+") "+vv.T+")",
+				"(select (map_dom "+newMV+") "+kv.T+")",
+				"(forall (("+q+" "+ks+")) (! (=> (not (= "+q+" "+kv.T+")) (= ("+mg+" "+newMV+" "+q+") ("+mg+" "+oldMV+" "+q+"))) :pattern (("+mg+" "+newMV+" "+q+"))))",
+				"(forall (("+q+" "+ks+")) (! (=> (not (= "+q+" "+kv.T+")) (= (select (map_dom "+newMV+") "+q+") (select (map_dom "+oldMV+") "+q+"))) :pattern ((select (map_dom "+newMV+") "+q+"))))",
+				"true")))
+			_, _ = r, mvf
 		case *ssa.Lookup:
 			a.lookup(ctx, x)
 		case *ssa.MakeSlice:
 			lv := a.val(x.Len)
 			s := g.w.sortOf(x.Type())
 			e := slcElem(s)
-			a.set(x, Val{T: "((as mk_slc " + s + ") ((as const (Array Int " + e + ")) " + g.w.zeroSort(e) + ") " + lv.T + ")", S: s, G: x.Type()})
+			a.set(x, Val{T: "((as mk_slc " + s + ") " + g.w.constArr("Int", e) + " " + lv.T + ")", S: s, G: x.Type()})
 		case *ssa.MakeChan:
 			a.set(x, Val{T: a.freshRef(ctx, "chan"), S: "Ref", G: x.Type()})
 		case *ssa.MakeClosure:
@@ -724,6 +742,7 @@ func (a *Act) lookup(ctx *blockCtx, x *ssa.Lookup) {
 		g.fact("(= " + n + " " + v.T + ")")
 		v.T = n
 	}
+	g.assumeType(v)
 	if x.CommaOk {
 		ok := "(select (map_dom " + g.mapvalTerm(ctx.st, bv, mt) + ") " + kv.T + ")"
 		a.tuples[x] = []Val{v, boolT(ok)}
@@ -893,7 +912,7 @@ func (g *Gen) assumeType(v Val) {
 func (g *Gen) mapvalTerm(st State, m Val, mt *types.Map) string {
 	hv, ks, vs := g.w.mapHeap(mt)
 	n := "mapval_" + sanitize(ks) + "_" + sanitize(vs)
-	empty := "(mk_map ((as const (Array " + ks + " Bool)) false) ((as const (Array " + ks + " " + vs + ")) " + g.w.zeroSort(vs) + "))"
+	empty := "(mk_map ((as const (Array " + ks + " Bool)) false) " + g.w.constArr(ks, vs) + ")"
 	g.extraDecl(n, "(declare-fun "+n+" ((Array Ref (MapV "+ks+" "+vs+")) Ref) (MapV "+ks+" "+vs+"))\n(assert (forall ((h (Array Ref (MapV "+ks+" "+vs+"))) (m Ref)) (! (= ("+n+" h m) (ite (= m ref_nil) "+empty+" (select h m))) :pattern (("+n+" h m)))))")
 	return "(" + n + " " + g.stateGet(st, hv) + " " + m.T + ")"
 }
